@@ -1,6 +1,9 @@
 # C03 — mixins bind arguments, attributes and block content per call.
+import json
 import tgen
-from core import CoreProp, ser, de
+import tmpl
+from common import cq_list, cq_bytes, cq_opt, hx, unhx
+from core import CoreProp, ser, de, obsm_coq, FUNCS
 from c02 import has_kind
 
 BODY_KINDS = {'text': 3, 'buf': 3, 'tag': 2, 'if': 1, 'each': 1}
@@ -15,44 +18,71 @@ class C03(CoreProp):
     sizes = {"quick": 450, "thorough": 3000}
     shard = 24
     design_ref = "DESIGN.md section 6/C03"
-    rule = ("three streams.  GENERAL (45 %): 1-4 mixin definitions (0-3 parameters; bodies printing parameters, page data, "
+    rule = ("four streams.  GENERAL (35 %): 1-4 mixin definitions (0-3 parameters; bodies printing parameters, page data, "
             "attributes.<name>, caller-local names (which must be invisible), placing `block` 0, 1 or 2 times, inside a loop of "
             "the body, and forwarding it to another mixin through that call's own block - alone or among other nodes) and a main "
             "part calling them repeatedly: in each-loops with a block that reads the loop variable and caller locals that change "
             "between calls, nested calls inside blocks, bounded recursion driven by a counter argument with the block forwarded "
             "through every level, missing and surplus arguments, attributes on calls (also spread onto a tag with &attributes).  "
-            "SHAPES (30 %): call-site shapes inside a recursive mixin (recursion direct or through a trampoline mixin, depth 1-4 "
+            "SHAPES (25 %): call-site shapes inside a recursive mixin (recursion direct or through a trampoline mixin, depth 1-4 "
             "or data driven): its body holds IN RANDOM ORDER a guarded recursive call whose block content reads the mixin's own "
             "parameters / a body-local variable (alone, next to `block`, inside a further call, only `block`, or empty), one or two "
             "forwarding calls to box mixins (block content only `block`; `block` among other nodes; forwarding again inside the "
             "forwarded block, i.e. pure forwarding at every level; boxes that forward to other boxes), direct placements of "
             "`block`, prints, and calls without block content of a probe mixin that tests `block`; called from the main part "
             "with blocks reading caller locals / loop variables, with calls of the same recursive mixin inside the block, "
-            "without block, and in loops.  ATTRSTATE (25 %): 1-3 mixins whose bodies ASSIGN into their attributes object "
+            "without block, and in loops.  ATTRSTATE (18 %): 1-3 mixins whose bodies ASSIGN into their attributes object "
             "(`- attributes.k = e`: always, depending on an argument, depending on page data) and read it back before and "
             "after (attributes.k printed / tested, &attributes(attributes) on a tag), nested calls made after storing, and mixins "
             "that only read; the main part calls them 2-7 times in one render with and without attributes, with different, "
             "falsy and missing arguments, in loops and branches; the second data value of the case flips the page data the "
-            "bodies depend on.  EVERY case is rendered with two data values, one after the other on fresh engines in ONE "
+            "bodies depend on.  PAGEDATA (22 %): caller locals that HAVE THE NAME OF A PAGE-DATA KEY: the page assigns to keys "
+            "of its data (`- s = \"Local\"`, `- s = s || \"Default\"`, `- n = n + 1`, `- p = !p`, `- var s = ...`) as its very "
+            "first statement, after 0-3 `- var` declarations, inside and after page-level each-loops and branches (all of which "
+            "grow the page's variable stack), prints them, passes them as arguments and in block content, and calls 1-3 reader "
+            "mixins (also nested, from block content, in loops) whose bodies print / test those keys and must show the PAGE DATA; "
+            "block content passed by the page also WRITES a key (`- t = \"bob\"` as the block's first statement; that key is "
+            "then read by mixin bodies and by that block only); readers with a parameter named like a key; a mixin that assigns "
+            "a key itself and then calls a reader.  SIBLINGS: 30 % of the cases of EVERY stream are not loaded alone: 1-3 other "
+            "page files are written next to the page under test (60 % in its directory, else in a directory below / above / "
+            "elsewhere; the page itself in template/page, in sec/ or in sec/deep/) that define mixins OF THE SAME NAMES with "
+            "other bodies, parameter lists and block use (the page's own definitions twisted: bodies rotated among the names, "
+            "parameters reversed / extended, `block` dropped or added; or an independently generated page of the same stream, "
+            "whose mixins are named alike; or of another stream; some cut down to definitions only); one full load "
+            "compiles them all, in TWO directory layouts (the page's entry listed before / after every sibling's entry by the "
+            "Readdir(-1) call of compileDir - entries are renamed until the read-back listing says so), and the page is rendered "
+            "with every data value in both: each result is judged as the page loaded alone (S and M know no siblings).  "
+            "EVERY case is rendered with two data values, one after the other on fresh engines in ONE "
             "harness process of its own (so state kept at package level survives from the first render into the second, and "
             "a failing case is a complete replay); a process that exceeds 12 s / 3 GB / 64 MB of stack is class 'crash'.  "
-            "non-trivial = at least one call with a non-empty block or at least two calls of one mixin; distinct by SHA-1")
+            "non-trivial = at least one call with a non-empty block or at least two calls of one mixin; distinct by SHA-1; "
+            "coverage.distribution.sibling_cases counts the sibling cases and the listing orders realised")
     trusted = [
         "M = Pug/Compile.v (transform_mixin.go: define mixin_<n> prologue, __freeze + template call for EVERY call with block "
         "content, block_<n>_<k> numbering), Tmpl/Exec.v (walkTemplate after repair 40255c5: latest binding of the block name "
-        "made by a shallower frame, binding kept; callee frame = globals only; __freeze), Tmpl/Runtime.v (__op__map_params "
-        "allocating a new Map per call, Map.__assign, Keys memoisation, __tryindex): hand-written model compared with the real "
+        "made by a shallower frame, binding kept; callee frame = the frame's globals only, which no statement changes; "
+        "__freeze), Tmpl/Runtime.v (__op__map_params "
+        "allocating a new Map per call, Map.__assign, Keys memoisation, __tryindex), Models/PageDir.v (Engine.compileDir: one "
+        "compiler state per FILE; the per-directory variant refuted): hand-written model compared with the real "
         "engine on every case",
         "S = Spec/Sem.v: closure semantics (a call evaluates arguments and attributes in the caller's environment; the body "
         "sees page data, parameters, a freshly allocated attributes object and block = closure over the caller's environment "
-        "and the caller's own block; `- attributes.k = e` updates that object only)",
+        "and the caller's own block; `- attributes.k = e` updates that object only; a page-level assignment to a name that "
+        "is a data key changes the caller's environment, never what bodies see); S is given the page under test alone - "
+        "sibling files have no meaning in it",
         "each case runs in its own harness process (gen/c03.py run): state surviving between CASES is not explored, state "
-        "surviving between the two renders and the many calls of one case is",
+        "surviving between the two renders, the two directory layouts and the many calls of one case is",
+        "the directory listing order is the file system's: harness/c03.go renames sibling entries until Readdir(-1) lists the "
+        "page before / after them and reports whether it managed (distribution.sibling_cases.both_listing_orders_realised)",
     ]
     assumptions = [
-        "blocks only read caller variables (in-place writes from block content go through a Go slice shared with the caller "
-        "frame; not modelled, not generated)",
-        "argument / attribute expressions are in the C01 core subset and domain; mixins are defined once, before use",
+        "block content writes a caller variable only as its own first statement, with a value that does not read that name, "
+        "and the page does not read or write that name outside such blocks (the write goes through a Go slice shared with "
+        "the caller frame and is visible to the caller afterwards - as in pug; S and M run block content on a copy of the "
+        "caller's variables, so they agree with the engine on everything but a later read by the caller, which is not "
+        "generated); what mixin bodies see after such a write IS generated and judged",
+        "argument / attribute expressions are in the C01 core subset and domain; mixins are defined once per file, before use; "
+        "a page calls only mixins it defines itself (what a call of an undefined mixin does is not part of the property)",
         "a loop variable is not read after its loop (the engine keeps the last element, pug scopes it to the loop: F-C02-f)",
         "`block` as a VALUE is only tested in mixins that are never given block content (S has no value for a given block: "
         "pug's is a function, the engine's a block name; both are truthy)",
@@ -61,20 +91,24 @@ class C03(CoreProp):
         "bodies that read by name assign any name; `attributes` is not iterated with each (objects grown by assignment: "
         "finding class fl_obj_grown of C02)",
         "the two renders of a case are sequential; concurrent renders sharing state are C08/C14's subject",
+        "sibling files load when they are alone (the harness checks each and leaves out one that does not: a file that "
+        "cannot be compiled makes the whole load fail, for every page - C13/C17's subject); siblings are never rendered",
     ]
     not_yet_proved = [
         "C03_program: exec (parse (compile p)) = Spec.Sem.sem_run p for all programs with mixins (closure semantics) as ONE "
         "theorem: proved are the frame discipline of the executor for every program (only the executing frame changes; a "
-        "call leaves exactly the frames it found; bindings survive calls), what a mixin body sees, where a block runs, the "
+        "call leaves exactly the frames it found; bindings survive calls; the page data of a frame is constant, whatever it "
+        "assigns), what a mixin body sees - also after any statements of the caller -, where a block runs, the "
         "lookup rules for repeated / nested / recursive calls, positional parameters, freshness of the attributes object of "
-        "every call (M's heap), and that a pure-forwarding call site is lowered with a wrapper block of its own; their "
+        "every call (M's heap), that a pure-forwarding call site is lowered with a wrapper block of its own, and that the "
+        "template a page compiles to does not depend on the other files of the load nor on their order; their "
         "composition with the rest of Pug/Compile.v (the __freeze / template lowering of arbitrary block content) and "
         "Spec/Sem.v rests on the correspondence run, judged against BOTH M and S",
     ]
 
     # ---------------------------------------------------------------- generation
     def mixin_body(self, g, rng, idx, params, ptypes, callable_, depth, genv):
-        """body of mixin number idx; callable_: list of (name, nparams) it may call"""
+        """body of mixin number idx; callable_: list of (name, nparams, parameter types) it may call"""
         env = genv.copy()
         for p, t in zip(params, ptypes):
             env.types[p] = t
@@ -103,9 +137,14 @@ class C03(CoreProp):
                 out.append(('tag', rng.choice(tgen.TAGS), rng.random() < 0.5, [], [b"attributes"] if rng.random() < 0.4 else [],
                             [('mixinblock',)] if rng.random() < 0.5 else [('text', b"t")]))
             elif k < 0.86 and callable_ and depth > 0:
-                cn, cp = rng.choice(callable_)
-                args = [('id', rng.choice(params)) if params and rng.random() < 0.6 else g.lit(rng.choice(['num', 'str']))
-                        for _ in range(rng.choice([cp, cp, max(0, cp - 1), cp + 1]))]
+                cn, cp, ct = rng.choice(callable_)
+                args = []
+                for j in range(rng.choice([cp, cp, max(0, cp - 1), cp + 1])):
+                    # an argument of the type the callee's body uses the parameter at (a number passed where the body
+                    # concatenates strings is C01's finding class, not this property's subject)
+                    want = ct[j] if j < len(ct) else rng.choice(['num', 'str'])
+                    same = [p_ for p_, t_ in zip(params, ptypes) if t_ == want]
+                    args.append(('id', rng.choice(same)) if same and rng.random() < 0.6 else g.lit(want))
                 # forward our own block through the inner call's block, or give it a fresh one, or none
                 kk = rng.random()
                 if kk < 0.2:
@@ -123,8 +162,9 @@ class C03(CoreProp):
                 out.extend(g.nodes(env, 1, 1, BODY_KINDS))
         return out
 
-    # three streams (shares of the run): general 45 %, call-site shapes 30 %, attribute-object state 25 %
-    STREAMS = (("general", 0.45), ("shapes", 0.30), ("attrstate", 0.25))
+    # four streams (shares of the run); on top of them, SIBLING_SHARE of the cases of every stream get sibling files
+    STREAMS = (("general", 0.35), ("shapes", 0.25), ("attrstate", 0.18), ("pagedata", 0.22))
+    SIBLING_SHARE = 0.3
     only_stream = None
 
     def generate(self, rng, n, tier):
@@ -140,103 +180,113 @@ class C03(CoreProp):
                     break
             if self.only_stream:
                 stream = self.only_stream
-            if stream == "shapes":
-                cases.append(self.gen_shapes(rng))
-                continue
-            if stream == "attrstate":
-                cases.append(self.gen_attrstate(rng))
-                continue
-            g = tgen.TGen(rng, offdomain=0.0, max_depth=2)
-            data, genv = g.data()
-            nodes = []
-            mixins = []          # (name, params, ptypes)
-            for mi in range(rng.choice([1, 2, 2, 3, 4])):
-                name = b"m%d" % (mi + 1)
-                np_ = rng.choice([0, 1, 1, 2, 2, 3])
-                params = [b"p%d" % (j + 1) for j in range(np_)]
-                ptypes = [rng.choice(['num', 'str']) for _ in params]
-                body = self.mixin_body(g, rng, mi, params, ptypes, [(m[0], len(m[1])) for m in mixins], 2, genv)
-                nodes.append(('mixin', name, params, body))
-                mixins.append((name, params, ptypes))
-            if rng.random() < 0.25:
-                # bounded recursion with the block forwarded through every level
-                nodes.append(('mixin', b"rec", [b"n"],
-                              [('code', [('expr', ('id', b"n"))], True, True),
-                               ('cond', ('bin', '>', ('id', b"n"), ('num', 0)),
-                                [('call', b"rec", [('bin', '-', ('id', b"n"), ('num', 1))], [],
-                                  [('text', b"("), ('mixinblock',), ('text', b")")] if rng.random() < 0.7 else [])],
-                                ('block', [('mixinblock',)]))]))
-                mixins.append((b"rec", [b"n"], ['num']))
-            env = genv.copy()
-            # caller locals
-            nodes.append(('code', [('vars', [('var', b"v1", g.lit('str'))])], False, False))
-            env.types[b"v1"] = 'str'
-            if rng.random() < 0.6:
-                nodes.append(('code', [('vars', [('var', b"v2", ('bin', '+', ('id', b"n"), ('num', 1)))])], False, False))
-                env.types[b"v2"] = 'num'
-
-            def call(env, depth):
-                name, params, ptypes = rng.choice(mixins)
-                if name == b"rec":
-                    args = [('num', rng.choice([0, 1, 2, 3]))]
-                else:
-                    k = rng.choice([len(params), len(params), len(params), max(0, len(params) - 1), len(params) + 1])
-                    args = []
-                    for j in range(k):
-                        t = ptypes[j] if j < len(ptypes) else 'str'
-                        args.append(g.expr(env, t, rng.choice([0, 0, 1, 2])))
-                attrs = []
-                if rng.random() < 0.4:
-                    for an in rng.sample([b"title", b"id", b"k", b"class"], rng.choice([1, 2])):
-                        attrs.append((an, g.expr(env, 'str', rng.choice([0, 1])), True))
-                kk = rng.random()
-                blk = []
-                own = None
-                if kk < 0.65 and rng.random() < 0.3:
-                    # the block content declares a variable of its own and prints it after whatever it calls
-                    own = g.fresh(b"bz")
-                    blk.append(('code', [('vars', [('var', own, g.lit(rng.choice(['num', 'str'])))])], False, False))
-                if kk < 0.65:
-                    for _ in range(rng.choice([1, 2, 3])):
-                        r = rng.random()
-                        if r < 0.45:
-                            loc = [x for x in env.types if x.startswith((b"v", b"it", b"ix")) and env.types[x] in ('num', 'str', 'bool')]
-                            blk.append(('code', [('expr', ('id', rng.choice(loc)) if loc else g.any_scalar(env, 1))], True, True))
-                        elif r < 0.65:
-                            blk.append(('text', rng.choice([b"B", b"x y", b"-"])))
-                        elif r < 0.8 and depth > 0:
-                            blk.append(call(env, depth - 1))
-                        else:
-                            blk.extend(g.nodes(env, 1, 1, BODY_KINDS))
-                if own is not None:
-                    blk.append(('text', b"~"))
-                    blk.append(('code', [('expr', ('id', own))], True, True))
-                return ('call', name, args, attrs, blk)
-
-            for _ in range(rng.choice([1, 2, 3, 4])):
-                k = rng.random()
-                if k < 0.35:
-                    nodes.append(call(env, 2))
-                elif k < 0.6:
-                    # calls in a loop; the block reads the loop variable
-                    it = g.fresh(b"it")
-                    inner = env.copy()
-                    coll = rng.choice([('id', b"xs"), ('id', b"ws"), ('arr', [('num', 1), ('num', 2), ('num', 3)])])
-                    inner.types[it] = 'str' if coll == ('id', b"ws") else 'num'
-                    nodes.append(('each', it, None, coll, [call(inner, 1)] + ([call(inner, 1)] if rng.random() < 0.3 else [])))
-                elif k < 0.75:
-                    # the same call site semantics with a caller local changed between calls
-                    nodes.append(call(env, 1))
-                    nodes.append(('code', [('expr', ('assign', ('id', b"v1"), g.lit('str')))], False, False))
-                    nodes.append(call(env, 1))
-                elif k < 0.85:
-                    nodes.append(('cond', g.test_expr(env), [call(env, 1)], ('block', [call(env, 1)]) if rng.random() < 0.5 else None))
-                else:
-                    nodes.extend(g.nodes(env, 1, 1, BODY_KINDS))
-            d2, _ = g.data()
-            d2 = {k: d2.get(k, v) for k, v in data.items()}
-            cases.append({"nodes": ser(nodes), "datas": [ser(data), ser(d2)], "stream": "general"})
+            case = self.gen_stream(rng, stream)
+            if rng.random() < self.SIBLING_SHARE:
+                case = self.add_siblings(case, rng)
+            cases.append(case)
         return cases
+
+    def gen_stream(self, rng, stream):
+        if stream == "shapes":
+            return self.gen_shapes(rng)
+        if stream == "attrstate":
+            return self.gen_attrstate(rng)
+        if stream == "pagedata":
+            return self.gen_pagedata(rng)
+        return self.gen_general(rng)
+
+    # ---------------------------------------------------------------- stream "general"
+    def gen_general(self, rng):
+        g = tgen.TGen(rng, offdomain=0.0, max_depth=2)
+        data, genv = g.data()
+        nodes = []
+        mixins = []          # (name, params, ptypes)
+        for mi in range(rng.choice([1, 2, 2, 3, 4])):
+            name = b"m%d" % (mi + 1)
+            np_ = rng.choice([0, 1, 1, 2, 2, 3])
+            params = [b"p%d" % (j + 1) for j in range(np_)]
+            ptypes = [rng.choice(['num', 'str']) for _ in params]
+            body = self.mixin_body(g, rng, mi, params, ptypes, [(m[0], len(m[1]), m[2]) for m in mixins], 2, genv)
+            nodes.append(('mixin', name, params, body))
+            mixins.append((name, params, ptypes))
+        if rng.random() < 0.25:
+            # bounded recursion with the block forwarded through every level
+            nodes.append(('mixin', b"rec", [b"n"],
+                          [('code', [('expr', ('id', b"n"))], True, True),
+                           ('cond', ('bin', '>', ('id', b"n"), ('num', 0)),
+                            [('call', b"rec", [('bin', '-', ('id', b"n"), ('num', 1))], [],
+                              [('text', b"("), ('mixinblock',), ('text', b")")] if rng.random() < 0.7 else [])],
+                            ('block', [('mixinblock',)]))]))
+            mixins.append((b"rec", [b"n"], ['num']))
+        env = genv.copy()
+        # caller locals
+        nodes.append(('code', [('vars', [('var', b"v1", g.lit('str'))])], False, False))
+        env.types[b"v1"] = 'str'
+        if rng.random() < 0.6:
+            nodes.append(('code', [('vars', [('var', b"v2", ('bin', '+', ('id', b"n"), ('num', 1)))])], False, False))
+            env.types[b"v2"] = 'num'
+
+        def call(env, depth):
+            name, params, ptypes = rng.choice(mixins)
+            if name == b"rec":
+                args = [('num', rng.choice([0, 1, 2, 3]))]
+            else:
+                k = rng.choice([len(params), len(params), len(params), max(0, len(params) - 1), len(params) + 1])
+                args = []
+                for j in range(k):
+                    t = ptypes[j] if j < len(ptypes) else 'str'
+                    args.append(g.expr(env, t, rng.choice([0, 0, 1, 2])))
+            attrs = []
+            if rng.random() < 0.4:
+                for an in rng.sample([b"title", b"id", b"k", b"class"], rng.choice([1, 2])):
+                    attrs.append((an, g.expr(env, 'str', rng.choice([0, 1])), True))
+            kk = rng.random()
+            blk = []
+            own = None
+            if kk < 0.65 and rng.random() < 0.3:
+                # the block content declares a variable of its own and prints it after whatever it calls
+                own = g.fresh(b"bz")
+                blk.append(('code', [('vars', [('var', own, g.lit(rng.choice(['num', 'str'])))])], False, False))
+            if kk < 0.65:
+                for _ in range(rng.choice([1, 2, 3])):
+                    r = rng.random()
+                    if r < 0.45:
+                        loc = [x for x in env.types if x.startswith((b"v", b"it", b"ix")) and env.types[x] in ('num', 'str', 'bool')]
+                        blk.append(('code', [('expr', ('id', rng.choice(loc)) if loc else g.any_scalar(env, 1))], True, True))
+                    elif r < 0.65:
+                        blk.append(('text', rng.choice([b"B", b"x y", b"-"])))
+                    elif r < 0.8 and depth > 0:
+                        blk.append(call(env, depth - 1))
+                    else:
+                        blk.extend(g.nodes(env, 1, 1, BODY_KINDS))
+            if own is not None:
+                blk.append(('text', b"~"))
+                blk.append(('code', [('expr', ('id', own))], True, True))
+            return ('call', name, args, attrs, blk)
+
+        for _ in range(rng.choice([1, 2, 3, 4])):
+            k = rng.random()
+            if k < 0.35:
+                nodes.append(call(env, 2))
+            elif k < 0.6:
+                # calls in a loop; the block reads the loop variable
+                it = g.fresh(b"it")
+                inner = env.copy()
+                coll = rng.choice([('id', b"xs"), ('id', b"ws"), ('arr', [('num', 1), ('num', 2), ('num', 3)])])
+                inner.types[it] = 'str' if coll == ('id', b"ws") else 'num'
+                nodes.append(('each', it, None, coll, [call(inner, 1)] + ([call(inner, 1)] if rng.random() < 0.3 else [])))
+            elif k < 0.75:
+                # the same call site semantics with a caller local changed between calls
+                nodes.append(call(env, 1))
+                nodes.append(('code', [('expr', ('assign', ('id', b"v1"), g.lit('str')))], False, False))
+                nodes.append(call(env, 1))
+            elif k < 0.85:
+                nodes.append(('cond', g.test_expr(env), [call(env, 1)], ('block', [call(env, 1)]) if rng.random() < 0.5 else None))
+            else:
+                nodes.extend(g.nodes(env, 1, 1, BODY_KINDS))
+        d2, _ = g.data()
+        d2 = {k: d2.get(k, v) for k, v in data.items()}
+        return {"nodes": ser(nodes), "datas": [ser(data), ser(d2)], "stream": "general"}
 
     # ---------------------------------------------------------------- stream "shapes"
     # Call-site shapes inside recursive mixins.  The lowering gives every call site ONE block name and the
@@ -539,6 +589,294 @@ class C03(CoreProp):
             data[b"n"], d2[b"n"] = 7, 0
         return {"nodes": ser(nodes), "datas": [ser(data), ser(d2)], "stream": "attrstate"}
 
+    # ---------------------------------------------------------------- stream "pagedata"
+    # "A mixin body sees the page data but not the caller's local variables" when the caller's local variable HAS
+    # THE NAME OF A PAGE-DATA KEY: the page gives a key of its data a value of its own (`- s = "Local"`,
+    # `- s = s || "Default"`, `- n = n + 1`, `- var s = ...`), at any point of the main part - as the very first
+    # statement, after 0-3 `- var` declarations / inside and after page-level loops (which grow the page's variable
+    # stack), inside branches - and then calls mixins whose bodies read that key.  The page itself, the arguments of
+    # its calls and the block content it passes see the page's value; every mixin body - called directly, nested,
+    # from block content, in a loop - sees the page data.  Block content passed by the page may also WRITE a key
+    # (`- t = "bob"` as its first statement): that is a write to the caller's variable, no mixin body may see it
+    # either.  Mixin parameters named like a data key, and mixin bodies that assign a key themselves before calling
+    # another mixin, are the neighbouring situations (the name then is the callee's own).
+    def gen_pagedata(self, rng):
+        g = tgen.TGen(rng, offdomain=0.0, max_depth=1)
+        data, genv = g.data()
+        P = lambda e, esc=True: ('code', [('expr', e)], esc, True)
+        T = lambda s: ('text', s)
+        A = lambda name, e: ('code', [('expr', ('assign', ('id', name), e))], False, False)
+        V = lambda name, e: ('code', [('vars', [('var', name, e)])], False, False)
+        BLK = ('mixinblock',)
+        KT = {b"s": 'str', b"t": 'str', b"n": 'num', b"m": 'num', b"p": 'bool'}
+        # keys only block content writes: page-level code never reads or writes them (S and M run block content on a
+        # copy of the caller's variables, the engine and pug on the variables themselves: see `assumptions`)
+        blockkeys = rng.sample([b"s", b"t", b"n", b"m"], rng.choice([0, 1, 1]))
+        pagekeys = [k for k in KT if k not in blockkeys]
+        penv = genv.copy()
+        for k in blockkeys:
+            del penv.types[k]
+        nodes = []
+
+        def read(k):
+            """a body reads page-data key k"""
+            if KT[k] == 'bool':
+                return ('cond', ('id', k), [T(b"+" + k)], ('block', [T(b"-" + k)]))
+            r = rng.random()
+            if r < 0.5:
+                return ('tag', rng.choice([b"b", b"i", b"em", b"p"]), True, [], [], [P(('id', k))])
+            if r < 0.8:
+                return P(('id', k))
+            return ('cond', ('id', k), [P(('id', k))], ('block', [T(b"no-" + k)]))
+
+        mixins = []          # (name, params, places_block)
+        for mi in range(rng.choice([1, 2, 2, 3])):
+            name = b"rd%d" % (mi + 1)
+            r = rng.random()
+            params = [] if r < 0.4 else [b"a"] if r < 0.75 else [rng.choice([b"s", b"n"])]     # a parameter named like a data key
+            body = []
+            if params:
+                body.append(P(('id', params[0])))
+            for _ in range(rng.choice([1, 2, 2, 3])):
+                body.append(read(rng.choice(list(KT))))
+            for k in blockkeys:
+                if rng.random() < 0.7:
+                    body.append(read(k))
+            places = rng.random() < 0.6
+            if places:
+                body.insert(rng.randrange(len(body) + 1), BLK)
+                if rng.random() < 0.25:
+                    body.append(BLK)
+            if mixins and rng.random() < 0.45:
+                cn, cp, cb = rng.choice(mixins)
+                cargs = []
+                if cp:
+                    cargs = [('id', params[0])] if params and rng.random() < 0.5 else [g.lit(KT.get(cp[0], 'str'))]
+                cblk = [BLK] if places and cb and rng.random() < 0.5 else []
+                body.insert(rng.randrange(len(body) + 1), ('call', cn, cargs, [], cblk))
+            nodes.append(('mixin', name, params, body))
+            mixins.append((name, params, places))
+        if rng.random() < 0.3:
+            # a mixin that gives a key a value of its own and then calls a reader: the reader sees the page data
+            k = rng.choice(list(KT))
+            cn, cp, _ = rng.choice(mixins)
+            nodes.append(('mixin', b"wr", [],
+                          [A(k, g.lit(KT[k])), read(k), ('call', cn, [g.lit(KT.get(cp[0], 'str'))] if cp else [], [], []), read(k)]))
+            mixins.append((b"wr", [], False))
+
+        def value(k, env):
+            t = KT[k]
+            r = rng.random()
+            if t == 'str':
+                if r < 0.35:
+                    return g.lit('str')
+                if r < 0.55:
+                    return ('bin', '+', ('id', k), ('str', rng.choice([b"!", b"-x", b"."])))
+                if r < 0.75:
+                    return ('bin', '||', ('id', k), ('str', b"Default"))
+                return g.expr(env, 'str', rng.choice([0, 0, 1]))
+            if t == 'num':
+                if r < 0.4:
+                    return g.lit('num')
+                if r < 0.8:
+                    return ('bin', rng.choice(['+', '*']), ('id', k), ('num', rng.choice([1, 2, 10])))
+                return g.expr(env, 'num', 0)
+            return ('bool', r < 0.5) if r < 0.7 else ('un', '!', ('id', k))
+
+        counter = [0]
+
+        def assign(env):
+            k = rng.choice(pagekeys)
+            if rng.random() < 0.15:
+                return V(k, value(k, env))              # `- var s = ...` for a key of the page data
+            return A(k, value(k, env))
+
+        def call(env, depth=1):
+            name, params, places = rng.choice(mixins)
+            args = []
+            if params and rng.random() < 0.85:
+                t = KT.get(params[0], 'str')
+                loc = [x for x in env.types if env.types[x] == t and (x in pagekeys or x.startswith((b"v", b"it")))]
+                args.append(('id', rng.choice(loc)) if loc and rng.random() < 0.6 else g.lit(t))
+            attrs = [(b"k", g.expr(env, 'str', 0), True)] if rng.random() < 0.15 else []
+            blk = []
+            r = rng.random()
+            if r < 0.7:
+                if blockkeys and rng.random() < 0.55:
+                    bk = rng.choice(blockkeys)
+                    blk.append(A(bk, g.lit(KT[bk])))        # block content writes a key: first statement of the block
+                    if rng.random() < 0.7:
+                        blk.append(P(('id', bk)))
+                for _ in range(rng.choice([0, 1, 1, 2])):
+                    rr = rng.random()
+                    if rr < 0.6:
+                        k = rng.choice([x for x in pagekeys if KT[x] != 'bool'])
+                        blk.append(rng.choice([P(('id', k)), ('tag', b"q", True, [], [], [P(('id', k))])]))
+                    elif rr < 0.8 and depth > 0:
+                        blk.append(call(env, depth - 1))
+                    else:
+                        blk.append(T(rng.choice([b"B", b"-"])))
+            return ('call', name, args, attrs, blk)
+
+        def stmt(env, depth):
+            r = rng.random()
+            if r < 0.30:
+                return [assign(env)]
+            if r < 0.42:
+                counter[0] += 1
+                v = b"v%d" % counter[0]
+                t = rng.choice(['str', 'num'])
+                out = [V(v, g.expr(env, t, rng.choice([0, 0, 1])))]
+                env.types[v] = t
+                return out
+            if r < 0.52:
+                k = rng.choice([x for x in pagekeys if KT[x] != 'bool'])
+                return [('tag', b"h1", True, [], [], [P(('id', k))])]
+            if r < 0.82 or depth == 0:
+                return [call(env)]
+            if r < 0.92:
+                it = g.fresh(b"it")
+                inner = env.copy()
+                coll = rng.choice([('id', b"xs"), ('arr', [('num', 1), ('num', 2)]), ('arr', [('num', 7)])])
+                inner.types[it] = 'num'
+                body = []
+                for _ in range(rng.choice([1, 2])):
+                    body += stmt(inner, 0)
+                return [('each', it, None, coll, body)]
+            body = []
+            for _ in range(rng.choice([1, 2])):
+                body += stmt(env.copy(), 0)
+            alt = ('block', stmt(env.copy(), 0)) if rng.random() < 0.4 else None
+            return [('cond', ('id', b"p") if b"p" in env.types and rng.random() < 0.6 else g.test_expr(env), body, alt)]
+
+        env = penv.copy()
+        main = []
+        early = rng.random()
+        if early < 0.4:
+            main.append(assign(env))                    # before anything grew the page's variable stack
+        elif early < 0.55 and blockkeys:
+            places = [m for m in mixins if m[2]]
+            if places:
+                bk = rng.choice(blockkeys)
+                name, params, _ = rng.choice(places)
+                main.append(('call', name, [g.lit(KT.get(params[0], 'str'))] if params else [], [],
+                             [A(bk, g.lit(KT[bk])), P(('id', bk))]))
+        for _ in range(rng.choice([2, 3, 4, 5, 6])):
+            main += stmt(env, 1)
+        main.append(call(env))
+        nodes += main
+        d2, _ = g.data()
+        d2 = {k: d2.get(k, v) for k, v in data.items()}
+        return {"nodes": ser(nodes), "datas": [ser(data), ser(d2)], "stream": "pagedata"}
+
+    # ---------------------------------------------------------------- sibling files
+    # A page is never loaded alone: the full load compiles every file below template/page.  A case with siblings
+    # puts 1-3 other pages next to the page under test - in its directory, in a directory below, in the directory
+    # above, in another directory - that define mixins OF THE SAME NAMES with other bodies, parameter lists and
+    # block use: (a) the page's own definitions twisted (bodies rotated among the names, parameters reversed or
+    # extended, `block` dropped or added, a marker text added), (b) an independently generated page of the same stream
+    # (the streams name their mixins alike: m1.., rec / bx1.., rc, tr, pb / f1.. / rd1.., wr), (c) a page of another
+    # stream; a sibling may be cut down to its definitions (an include file).  The harness loads the lot in two
+    # directory layouts (the page listed before / after all its siblings by Readdir) and renders the page with every
+    # data value in both: every result must be what the page means by itself (S knows nothing of siblings).
+    SIB_NAMES = ["about", "basket", "card", "index", "list", "zeta", "a", "m0", "u", "news"]
+
+    def twisted(self, nodes, rng):
+        defs = [n for n in nodes if n[0] == 'mixin']
+        if not defs:
+            return [('mixin', b"m1", [], [('text', b"sib")])]
+        BLK = ('mixinblock',)
+        bodies = [d[3] for d in defs]
+        rot = rng.randrange(1, len(defs)) if len(defs) > 1 else 0
+        out = []
+        for i, d in enumerate(defs):
+            body = list(bodies[(i + rot) % len(defs)])
+            params = list(d[2])
+            k = rng.random()
+            if k < 0.3:
+                params = params[::-1] if len(params) > 1 else [b"zz"] + params
+            elif k < 0.5:
+                params = [b"zz"] + params
+            k = rng.random()
+            if k < 0.3:
+                body = [n for n in body if n != BLK] or [('text', b"nb")]
+            elif k < 0.5:
+                body = body + [BLK]
+            if rot == 0 or rng.random() < 0.5:
+                body = [('text', b"~sib~")] + body
+            out.append(('mixin', d[1], params, body))
+        if rng.random() < 0.5:
+            out += [n for n in nodes if n[0] != 'mixin']           # the page's own main part, over the twisted definitions
+        return out
+
+    def add_siblings(self, case, rng):
+        nodes = de(case["nodes"])
+        stream = case["stream"]
+        tdir = rng.choice(["", "", "", "sec/", "sec/deep/"])
+        names = list(self.SIB_NAMES)
+        rng.shuffle(names)
+        sibs = []
+        for i in range(rng.choice([1, 1, 2, 2, 3])):
+            k = rng.random()
+            if k < 0.45:
+                snodes = self.twisted(nodes, rng)
+            elif k < 0.85:
+                snodes = de(self.gen_stream(rng, stream)["nodes"])
+            else:
+                snodes = de(self.gen_stream(rng, rng.choice([n for n, _ in self.STREAMS]))["nodes"])
+            if rng.random() < 0.3:
+                snodes = [n for n in snodes if n[0] == 'mixin'] or snodes
+            k = rng.random()
+            if k < 0.6:
+                d = tdir                                 # the page's own directory
+            elif k < 0.75:
+                d = tdir + "sub/"                        # below
+            elif k < 0.9 and tdir:
+                d = tdir[:tdir[:-1].rfind("/") + 1]      # above
+            else:
+                d = "oth/"
+            sibs.append([d + names[i], ser(snodes)])
+        return dict(case, tname=tdir + "t", sibs=sibs)
+
+    def harness_case(self, case):
+        nodes, datas = de(case["nodes"]), [de(d) for d in case["datas"]]
+        tname = case.get("tname", "t")
+        hc = {"files": {hx(tname): hx(tmpl.pug_file(nodes))}, "render": hx(tname),
+              "datas": [tmpl.data_go(d) for d in datas], "debug": False}
+        if case.get("sibs"):
+            hc["sibs"] = {hx(n): hx(tmpl.pug_file(de(ns))) for n, ns in case["sibs"]}
+        return hc
+
+    def emit(self, case, obs):
+        """the Coq case holds the page under test only (siblings mean nothing to S or M); a case with siblings was
+        rendered in two layouts, so its data values are listed twice, in the order of the harness' results"""
+        nodes, datas = de(case["nodes"]), [de(d) for d in case["datas"]]
+        if case.get("sibs"):
+            res = obs["prod"].get("res") or []
+            key = lambda r: (r.get("class"), r.get("out", ""))
+            n = len(datas)
+            if obs["prod"].get("load") == "ok" and len(res) == 2 * n and [key(r) for r in res[:n]] == [key(r) for r in res[n:]]:
+                # the second layout gave, byte for byte, the results of the first: the judge is a function of (page,
+                # data value, result), so judging them once is judging both
+                obs = dict(obs, prod=dict(obs["prod"], res=res[:n]))
+            else:
+                datas = datas + datas
+        return (b"{| c_nodes := " + cq_list([tmpl.pug_coq(n) for n in nodes])
+                + b"; c_datas := " + cq_list([tmpl.data_coq(d) for d in datas])
+                + b"; c_funcs := " + cq_list([cq_bytes(f) for f in FUNCS])
+                + b"; c_prod := " + obsm_coq(obs["prod"], len(datas))
+                + b"; c_debug := " + cq_opt(None) + b" |}")
+
+    def sample(self, case, obs):
+        d = super().sample(case, obs)
+        if case.get("sibs"):
+            d["rendered"] = case.get("tname", "t")
+            d["siblings"] = {n: json.loads(tmpl.pug_file(de(ns)).decode("utf-8", "replace")) for n, ns in case["sibs"]}
+            d["layouts"] = obs.get("layouts")
+            d["go_output"] = [unhx(r.get("out", "")).decode("utf-8", "replace")[:300] if r.get("class") == "ok" else r.get("class")
+                              for r in (obs["prod"].get("res") or [])]
+        return d
+
     # ---------------------------------------------------------------- running
     CASE_TIMEOUT_S = 12
     CASE_MEM_BYTES = 3 << 30
@@ -558,11 +896,18 @@ class C03(CoreProp):
         def limit():
             resource.setrlimit(resource.RLIMIT_AS, (self.CASE_MEM_BYTES, self.CASE_MEM_BYTES))
 
+        # the template directories the harness writes live below the check's own scratch directory: a process that is
+        # killed cannot remove them, the driver removes `tmp`
+        import os
+        scratch = os.path.join(tmp, "c03tmp")
+        os.makedirs(scratch, exist_ok=True)
+        env = dict(os.environ, TMPDIR=scratch)
+
         def one(case):
             crash = {"prod": {"load": "crash", "code": "", "res": []}, "debug": None}
             try:
                 p = subprocess.run([binary, self.engine], input=json.dumps([self.harness_case(case)]).encode(),
-                                   capture_output=True, timeout=self.CASE_TIMEOUT_S, preexec_fn=limit)
+                                   capture_output=True, timeout=self.CASE_TIMEOUT_S, preexec_fn=limit, env=env)
             except subprocess.TimeoutExpired:
                 return crash
             if p.returncode != 0:
@@ -669,6 +1014,26 @@ class C03(CoreProp):
                     n = ('block', without(n[1], name))
                 out.append(n)
             return out
+        # fewer files: no siblings at all (then the defect is the page's own), one sibling less, siblings cut down to
+        # their definitions
+        sibs = case.get("sibs") or []
+        if sibs:
+            bare = {k: v for k, v in case.items() if k not in ("sibs", "tname")}
+            cands.append(bare)
+            if len(sibs) > 1:
+                for i in range(len(sibs)):
+                    cands.append(dict(case, sibs=sibs[:i] + sibs[i + 1:]))
+            for i, (sn, sv) in enumerate(sibs):
+                sn_ = de(sv)
+                defs = [n for n in sn_ if n[0] == 'mixin']
+                if defs and len(defs) < len(sn_):
+                    cands.append(dict(case, sibs=sibs[:i] + [[sn, ser(defs)]] + sibs[i + 1:]))
+                if len(defs) > 1 and len(defs) == len(sn_):
+                    for j in range(len(defs)):
+                        cands.append(dict(case, sibs=sibs[:i] + [[sn, ser(defs[:j] + defs[j + 1:])]] + sibs[i + 1:]))
+            if case.get("tname", "t") != "t" and all("/" not in n or n.startswith(case["tname"][:-1]) for n, _ in sibs):
+                pre = case["tname"][:-1]
+                cands.append(dict(case, tname="t", sibs=[[n[len(pre):] if n.startswith(pre) else n, v] for n, v in sibs]))
         for n in nodes:
             if n[0] == 'mixin':
                 cands.append(dict(case, nodes=ser(without(nodes, n[1]))))
@@ -684,6 +1049,17 @@ class C03(CoreProp):
             s = c.get("stream", "corpus")
             streams[s] = streams.get(s, 0) + 1
         d["streams"] = streams
+        # cases with sibling files, and in how many of them the harness got the two directory listing orders it wanted
+        withs = [(c, o) for c, o in zip(cases, obss) if c.get("sibs")]
+        both = 0
+        for c, o in withs:
+            ls = o.get("layouts") or []
+            if len(ls) == 2 and ls[0].get("t_before_all") and ls[1].get("t_after_all"):
+                both += 1
+        d["sibling_cases"] = {"cases": len(withs), "sibling_files": sum(len(c["sibs"]) for c, _ in withs),
+                              "both_listing_orders_realised": both,
+                              "siblings_not_loading_alone_dropped": sum(o.get("dropped", 0) for _, o in withs),
+                              "page_in_subdirectory": sum(1 for c, _ in withs if "/" in c.get("tname", "t"))}
         return d
 
     def nontrivial(self, case, obs):
